@@ -46,10 +46,13 @@ var hCfgVals = map[string][]string{
 	"goos":   {"linux", "darwin", "windows", "plan9"},
 	"goarch": {"amd64", "arm64", "386"},
 	"pkg":    {"p/a", "p/b", "p/c"},
-	"cpu":    {"1", "2", "10", "1k", "1Ki", "2M", "1500", "NaN", "inf", "abc", "zed", "3Gi", "1Zi", "1Yi", "2Z", "5.5", "0.5k"},
+	"cpu":    {"1", "2", "10", "1k", "1Ki", "2M", "1500", "NaN", "inf", "abc", "zed", "3Gi", "1Zi", "1Yi", "2Z", "5.5", "0.5k", "999999999.5", "1000000000", "9.999999994e-1", "1e0", "1.0000000006", "4", "8"},
 	"note":   {"base", "opt", "opt2", "x y", "zz"},
 	"commit": {"c1", "c2", "c3", "c4", "c5", "c6"},
 }
+// hShared values occur under every configuration key, so that the same string is first observed at different times under different keys.
+var hShared = []string{"4", "8", "16", "x"}
+
 var hSubKeys = []string{"size", "align", "poly", "fmt", "size2", "al"}
 var hSubVals = map[string][]string{
 	"size":  {"1", "2", "10", "100", "1k", "1Ki", "64", "1M", "abc", "NaN"},
@@ -77,6 +80,12 @@ func hGenResult(T *sim.Tape, universe int, nsub int) *hResult {
 			nv = 3
 		}
 		v := vals[T.Intn(nv, "cfgval")]
+		if T.Intn(4, "shared-val") == 0 {
+			v = sim.Pick(T, hShared, "sharedv")
+		}
+		if T.Intn(12, "explicit-empty") == 0 {
+			v = "" // an explicitly empty value counts as missing
+		}
 		res.cfg = append(res.cfg, [2]string{k, v})
 		res.cfgMap[k] = v
 	}
@@ -748,6 +757,7 @@ func hRun(t *testing.T, r *sim.Run, prop string) {
 	// losslessness bookkeeping on the primary instance
 	jointByKeys, jointByInfo := map[string]string{}, map[string]string{}
 	projected := 0
+	var lastH *hResult
 	for ri := 0; ri < nres; ri++ {
 		if universe < len(hCfgKeys) && T.Intn(6, "grow") == 0 {
 			universe++
@@ -758,6 +768,7 @@ func hRun(t *testing.T, r *sim.Run, prop string) {
 		}
 		var h *hResult
 		h = hGenResult(T, universe, nsub)
+		lastH = h
 		r.Logf("result %d: %q cfg=%v units=%v", ri, h.name, h.cfg, h.units)
 		for ii, inst := range insts {
 			c := &hCheck{r: r, prop: prop, label: fmt.Sprintf("[parse order %v]", inst.order)}
@@ -772,6 +783,12 @@ func hRun(t *testing.T, r *sim.Run, prop string) {
 			var joint strings.Builder
 			for _, hp := range append(append([]*hProj(nil), inst.projs...), inst.residue) {
 				if hp.expr.unit {
+					if T.Intn(4, "project-on-unit-projection") == 0 {
+						// Project on a projection parsed with a unit: the unit field is empty
+						k := hp.proj.Project(res)
+						hp.observe(c, w, h, k, "")
+						r.Hit("Project after ProjectValues on a unit projection")
+					}
 					keys := hp.proj.ProjectValues(res)
 					if len(keys) != len(res.Values) {
 						r.Fail("key-identity", "projectvalues-length", "ProjectValues returned %d keys for %d values", len(keys), len(res.Values))
@@ -860,8 +877,73 @@ func hRun(t *testing.T, r *sim.Run, prop string) {
 			}
 		}
 	} else {
+		// concurrent readers: after all results have been projected, Less/SortKeys may be called from
+		// several goroutines (as benchstat's cell goroutines do); every one of them must see the same order.
+		// Runs before any sequential sort so that lazily built state is still cold.
+		type sorted struct{ seq [][]Key }
+		var got []*sorted
+		if T.Intn(3, "concurrent-lane") == 0 {
+			if lastH != nil && T.Bool("cold-tail") {
+				// one more result: the previous one again plus a never-seen file key with an explicitly
+				// empty value. It adds a .config sub-field but maps onto existing keys, so whatever the
+				// projections build lazily for their field list is cold when the sorters start.
+				h := *lastH
+				h.cfg = append(append([][2]string(nil), lastH.cfg...), [2]string{"zlast", ""})
+				r.Logf("tail result: %q cfg=%v", h.name, h.cfg)
+				c := &hCheck{r: r, prop: prop}
+				res := h.toResult()
+				if ok, _ := primary.filter.Apply(res); ok {
+					for _, hp := range all {
+						if hp.expr.unit {
+							for vi, k := range hp.proj.ProjectValues(res) {
+								hp.observe(c, w, &h, k, res.Values[vi].Unit)
+							}
+						} else {
+							hp.observe(c, w, &h, hp.proj.Project(res), "")
+						}
+					}
+				}
+				r.Hit("field added by a result that maps onto existing keys")
+			}
+			ntask := 2 + T.Intn(2, "ntasks")
+			r.Bubble(t, 100000, func(s *sim.Sched) {
+				for ti := 0; ti < ntask; ti++ {
+					res := &sorted{}
+					got = append(got, res)
+					s.Go(fmt.Sprintf("sorter%d", ti), 1, func() {
+						for _, hp := range all {
+							ks := append([]Key(nil), hp.keys...)
+							if len(ks) > 40 {
+								ks = ks[:40]
+							}
+							SortKeys(ks)
+							res.seq = append(res.seq, ks)
+						}
+					})
+				}
+				s.Loop()
+			})
+			r.Hit("keys sorted concurrently by several tasks")
+		}
 		for _, hp := range all {
 			hp.checkOrder(&hCheck{r: r, prop: prop}, T)
+		}
+		for ti, g := range got {
+			for pi, hp := range all {
+				if pi >= len(g.seq) {
+					r.Fail("sort", "concurrent-sort-incomplete", "task %d did not finish sorting", ti)
+				}
+				want := append([]Key(nil), hp.keys...)
+				if len(want) > 40 {
+					want = want[:40]
+				}
+				SortKeys(want)
+				for i := range want {
+					if g.seq[pi][i] != want[i] {
+						r.Fail("sort", "concurrent-sort-differs", "projection %q: SortKeys run by task %d concurrently with other sorters gave %v, sequentially %v", hp.expr.text, ti, g.seq[pi], want)
+					}
+				}
+			}
 		}
 	}
 	nkeys := 0
@@ -875,7 +957,9 @@ func hRun(t *testing.T, r *sim.Run, prop string) {
 func sortedCfg(h *hResult) []string {
 	var out []string
 	for k, v := range h.cfgMap {
-		out = append(out, k+"="+v)
+		if v != "" { // a missing value counts as empty
+			out = append(out, k+"="+v)
+		}
 	}
 	sort.Strings(out)
 	return out
